@@ -954,7 +954,59 @@ class Ip4PrefixHost(Comp):
         return None
 
 
-ALL = [EnumStore, BitsStore, BinStore, StrLenStore, UnionStore, Cmp2, Sort2, Ip4PrefixHost]
+class IidCanon(Comp):
+    """instance-identifier / node-instance-identifier: canonical string of lyd_new_term (and of the canonical string stored again)
+    vs IidCanon.iid_print / iid_parse on the same path given as a structure: two keys, predicates on two steps, leaf-list and
+    position predicates, values with apostrophes and double quotes in every combination, either quote on input"""
+    name = "t2-iid"
+    driver = "t_types2"
+    slice = "types2"
+    VALS = ["x", "it's", 'say "hi"', "o'clock 'n", 'a"b"', "", "a b", "1"]
+
+    def gen(self, rng, tier, scale=1.0):
+        L = []
+
+        def emit(T, segs):
+            """segs: [(module, name, [('K', key, value) | ('L', value) | ('P', n)])]"""
+            text, toks, prev = "", [], None
+            for m, n, ps in segs:
+                text += "/" + (n if m == prev else m + ":" + n)
+                prev = m
+                toks += ["S", hexs(m), hexs(n)]
+                for pr in ps:
+                    if pr[0] == "P":
+                        text += "[%d]" % pr[1]
+                        toks += ["P", str(pr[1])]
+                        continue
+                    v = pr[-1]
+                    q = _pq(v) if ("'" in v or '"' in v or rng.random() < 0.6) else '"%s"' % v      # either quote on input
+                    text += ("[%s=%s]" % (pr[1], q)) if pr[0] == "K" else "[.=%s]" % q
+                    toks += (["K", hexs(pr[1]), hexs(v)] if pr[0] == "K" else ["L", hexs(v)])
+            L.append("iidp\t%s\t%s\t%s" % (T, hexs(text), "\t".join(toks)))
+        for T in ("iid", "nii"):
+            for a in self.VALS:
+                for b in self.VALS:
+                    emit(T, [("types2", "k2", [("K", "a", a), ("K", "b", b)]), ("types2", "v", [])])
+                    emit(T, [("types2", "k2", [("K", "a", a), ("K", "b", b)])])
+                    emit(T, [("types2", "o", [("K", "n", a)]), ("types2", "i", [("K", "m", b)]), ("types2", "v", [])])
+                    emit(T, [("types2", "o", [("K", "n", a)]), ("types2", "i", [("K", "m", b)])])
+                emit(T, [("types2", "ll_s", [("L", a)])])
+            emit(T, [("types2", "tgt", [])])
+            emit(T, [("types2", "k_i8r", [("K", "k", "5")]), ("types2", "k", [])])
+            if T == "nii":      # (an instance-identifier must give all the keys of a list it ends in)
+                emit(T, [("types2", "o", [("K", "n", "x")]), ("types2", "i", [])])
+        # position predicates: instance-identifier on key-less lists / leaf-lists only - none in the module; refused by both
+        return L
+
+    def norm(self, line, out):
+        return out
+
+    def witness(self, line, m, o):
+        f = line.split("\t")
+        return None, "path %r of %s: implementation %s, model (instanceid_path2str as coded) %s" % (unhex(f[2]), f[1], o, m)
+
+
+ALL = [EnumStore, BitsStore, BinStore, StrLenStore, UnionStore, Cmp2, Sort2, Ip4PrefixHost, IidCanon]
 
 
 # ------------------------------------------------------------------------------------------------
